@@ -24,6 +24,16 @@ pub fn universe(tier: Tier) -> Vec<Prog> {
         }
     }
     out.extend(crate::schema::instances(tier));
+    // Ret-rooted programs that use host operations have no public lowering path (the executable
+    // contract wants an OS result): give them an OS root that prints the result and exits.
+    for p in out.iter_mut() {
+        if p.root == ret(VT::Int) && uses_exec(&p.body) {
+            let x: Var = 9_999;
+            let body = std::mem::replace(&mut p.body, C::Exit(V::Int(0)));
+            p.body = C::Do(Pat::Var(x, VT::Int), Box::new(body), Box::new(C::WriteInt(V::Var(x), Box::new(C::Exit(V::Int(0))))));
+            p.root = CT::Os;
+        }
+    }
     out
 }
 
